@@ -371,3 +371,30 @@ func (it *symStrIter) next() tuple {
 	it.i++
 	return t
 }
+
+
+// ---- unsafe pointer casts between same-size numeric types ----------------------
+
+type unsafePtr struct {
+	p    *value
+	elem types.Type
+}
+
+type castPtr struct {
+	p        *value
+	from, to types.BasicKind
+}
+
+func bitcast(v value, from, to types.BasicKind) value {
+	t := termOf(v)
+	if kindFloat(from) {
+		t = FPToBits(t)
+	}
+	if kindFloat(to) {
+		return mkVal(to, FPFromBits(t, kindSort(to)))
+	}
+	return mkVal(to, t)
+}
+
+func (c *castPtr) load() value   { return bitcast(*c.p, c.from, c.to) }
+func (c *castPtr) store(v value) { *c.p = bitcast(v, c.to, c.from) }
